@@ -361,11 +361,13 @@ class PauliStringPhasorGate(raw_types.Gate):
         return self.dense_pauli_string.on(*qubits).to_z_basis_ops()
 
     def _decompose_(self, qubits: Sequence[cirq.Qid]) -> Iterator[cirq.OP_TREE]:
-        if len(self.dense_pauli_string) <= 0:
+        # Only qubits on which the Pauli string is not the identity take part in the parity.
+        support = [q for q, p in zip(qubits, self.dense_pauli_string.pauli_mask) if p]
+        if not support:
             return
-        any_qubit = qubits[0]
+        any_qubit = support[0]
         to_z_ops = op_tree.freeze_op_tree(self._to_z_basis_ops(qubits))
-        xor_decomp = tuple(xor_nonlocal_decompose(qubits, any_qubit))
+        xor_decomp = tuple(xor_nonlocal_decompose(support, any_qubit))
         yield to_z_ops
         yield xor_decomp
 
